@@ -44,7 +44,7 @@ impl Scenario for C31 {
         }
     }
     fn rule(&self) -> &'static str {
-        "history = <=8 storage calls (append_entries batch of 1-3 contiguous entries starting at an index <= last+1 chosen by rank, delete_entries_from(i), create_snapshot(i, term)) over indices 1-6 and terms 1-3, biased to <=4 calls; after each call get_entry(i) for every i, get_entries(a,b) for every a<b and get_last_log_index_term are compared with a reference log applying Raft's rule (an append at an existing index replaces it and everything after; a snapshot at i removes only entries <= i). Non-trivial = an append landed on an existing index or a snapshot was taken while entries above it existed. Distinct = hash of the resolved call sequence. The space (~35 ops ^ 6) is sampled, not enumerated."
+        "history = <=8 storage calls (append_entries batch of 1-3 contiguous entries starting at an index <= last+1 chosen by rank, delete_entries_from(i), create_snapshot(i, term)) over indices 1-9 and terms 1-3 (appends may leave holes), biased to <=4 calls; after each call get_entry(i) for every i, get_entries(a,b) for every a<b and get_last_log_index_term are compared with a reference log applying Raft's rule (an append at an existing index replaces it and everything after; a snapshot at i removes only entries <= i). Non-trivial = an append landed on an existing index or a snapshot was taken while entries above it existed. Distinct = hash of the resolved call sequence. The space (~35 ops ^ 6) is sampled, not enumerated."
     }
     fn real_components(&self) -> Vec<&'static str> {
         vec!["samyama::raft::storage::RaftStorage (append_entries, delete_entries_from, create_snapshot, get_entry, get_entries, get_last_log_index_term)", "tokio::sync::RwLock (polled by the simulator's executor)"]
@@ -54,12 +54,12 @@ impl Scenario for C31 {
     }
     fn assumptions(&self) -> Vec<&'static str> {
         vec![
-            "appends are contiguous batches whose first index is <= last_index+1 and > snapshot index (what a Raft follower would accept); gaps are never generated",
+            "an append batch is contiguous and starts at an index the log holds (replacement), at last+1, or beyond last+1 (leaving a hole); it never starts at a missing index inside an existing hole (the property does not say what that should do)",
             "get_entries is expected in ascending index order (a log)",
         ]
     }
     fn required_probes(&self, _tier: Tier) -> Vec<&'static str> {
-        vec!["append_at_existing_index", "snapshot_below_tail", "log_emptied_by_snapshot"]
+        vec!["append_at_existing_index", "snapshot_below_tail", "log_emptied_by_snapshot", "append_leaves_hole", "replace_after_hole"]
     }
     fn extra_evidence(&self, _tier: Tier) -> serde_json::Map<String, serde_json::Value> {
         let mut m = serde_json::Map::new();
@@ -72,7 +72,13 @@ impl Scenario for C31 {
         let r = &mut s.workload;
         for _ in 0..n {
             match r.weighted(&[6, 2, 3]) {
-                0 => case.events.push(json!({"op":"append","at":r.below(8),"len":1 + r.below(3),"term":r.below(3)})),
+                0 => {
+                    // most appends are contiguous; some leave a hole behind the tail (the
+                    // property quantifies over all operation sequences, and a hole is what
+                    // makes "position of an index" differ from "index minus first index")
+                    let gap = if r.chance(1, 5) { 1 + r.below(2) } else { 0 };
+                    case.events.push(json!({"op":"append","at":r.below(8),"len":1 + r.below(3),"term":r.below(3),"gap":gap}))
+                }
                 1 => case.events.push(json!({"op":"truncate","at":r.below(8)})),
                 _ => case.events.push(json!({"op":"snapshot","at":r.below(8)})),
             }
@@ -99,17 +105,24 @@ impl Scenario for C31 {
             let snap_i = m.snapshot.map(|s| s.0).unwrap_or(0);
             match kind.as_str() {
                 "append" => {
-                    // first index in snap_i+1 ..= last_i+1, chosen by rank
-                    let lo = snap_i + 1;
-                    let hi = last_i.max(snap_i) + 1;
-                    let first = lo + u(ev, "at") % (hi - lo + 1);
-                    if first > 6 {
+                    // first index: an index the log already holds (replacement), or last+1,
+                    // or — with a gap — beyond last+1 (leaves a hole). Never a missing index
+                    // inside an existing hole: what that should do is not stated.
+                    let mut cands: Vec<u64> = m.entries.keys().cloned().filter(|i| *i > snap_i).collect();
+                    let tail = last_i.max(snap_i) + 1;
+                    cands.push(tail);
+                    let gap = u(ev, "gap");
+                    let first = if gap > 0 { tail + gap } else { cands[(u(ev, "at") as usize) % cands.len()] };
+                    if first > 9 {
                         continue;
+                    }
+                    if gap > 0 {
+                        o.probe("append_leaves_hole");
                     }
                     // term >= term of the entry preceding `first`
                     let prev_t = if first > 1 { m.entries.get(&(first - 1)).map(|e| e.0).or(m.snapshot.filter(|s| s.0 == first - 1).map(|s| s.1)).unwrap_or(last_t.min(1)) } else { 1 };
                     let term = (prev_t.max(1) + u(ev, "term")).min(3).max(prev_t.max(1));
-                    let len = u(ev, "len").max(1).min(7 - first);
+                    let len = u(ev, "len").max(1).min(10 - first);
                     let mut batch = Vec::new();
                     for k in 0..len {
                         uniq = uniq.wrapping_add(1);
@@ -118,6 +131,10 @@ impl Scenario for C31 {
                     if m.entries.contains_key(&first) {
                         o.probe("append_at_existing_index");
                         o.nontrivial = true;
+                        let held: Vec<u64> = m.entries.keys().cloned().collect();
+                        if held.windows(2).any(|w| w[1] != w[0] + 1) && held.iter().any(|i| *i < first) {
+                            o.probe("replace_after_hole");
+                        }
                     }
                     if let Err(e) = block_on(st.append_entries(batch.clone())) {
                         o.violate(Violation::new("C31/append_entries/refused", format!("{e}"), step));
@@ -133,7 +150,7 @@ impl Scenario for C31 {
                     seq.push(format!("a{first}+{len}t{term}"));
                 }
                 "truncate" => {
-                    let at = 1 + u(ev, "at") % 7;
+                    let at = 1 + u(ev, "at") % 10;
                     if at <= snap_i {
                         continue;
                     }
@@ -175,7 +192,7 @@ impl Scenario for C31 {
             }
             o.steps += 1;
             // ---- oracle
-            for i in 0..=8u64 {
+            for i in 0..=12u64 {
                 let got = block_on(st.get_entry(i));
                 let want = m.entries.get(&i);
                 match (got, want) {
@@ -196,8 +213,8 @@ impl Scenario for C31 {
                     }
                 }
             }
-            for a in 0..=7u64 {
-                for b in a + 1..=8u64 {
+            for a in 0..=11u64 {
+                for b in a + 1..=12u64 {
                     let got: Vec<(u64, u64, Vec<u8>)> = block_on(st.get_entries(a, b)).into_iter().map(|e| (e.index, e.term, e.data)).collect();
                     let want: Vec<(u64, u64, Vec<u8>)> = m.entries.range(a..b).map(|(i, e)| (*i, e.0, e.1.clone())).collect();
                     if got != want {
